@@ -53,6 +53,8 @@ func drawConfig(prop, tier string, c *kernel.Chooser) Config {
 	cfg.RebcastMax = cfg.RebcastBase * time.Duration(1+c.Intn(10))
 	cfg.CommitteeLookback = uint64([]int{10, 2, 3, 5}[c.Intn(4)])
 	cfg.WireCodec = true
+	cfg.CacheInstances = []int{10, 1, 2, 3}[c.Intn(4)]
+	cfg.CacheMsgs = []int{1000, 4, 64, 256}[c.Intn(4)]
 	cfg.MaxChain = c.Range(1, 6)
 	if thorough && c.Chance(30) {
 		cfg.MaxChain = 127
@@ -103,8 +105,22 @@ func drawConfig(prop, tier string, c *kernel.Chooser) Config {
 			cfg.Powers[k][i] = p
 		}
 	}
+	// camps
+	cfg.Camp = make([]int, cfg.N)
+	for i := range cfg.Camp {
+		cfg.Camp[i] = c.Intn(2)
+	}
+	cfg.CampInputs = c.Chance(400)
+	if cfg.CampInputs && cfg.Branches < 2 {
+		cfg.Branches = 2
+	}
+	if cfg.N >= 3 && c.Chance(250) && cfg.Mode != ModeGoodCase {
+		drawBoundary(&cfg, c)
+	}
 	// assign faulty roles greedily under the < 1/3 budget of every table (scaled power)
-	if prop != "C02" || cfg.Mode != ModeGoodCase {
+	if cfg.Boundary {
+		// roles fixed by drawBoundary
+	} else if prop != "C02" || cfg.Mode != ModeGoodCase {
 		want := c.Intn(cfg.N/3 + 2)
 		for t := 0; t < want; t++ {
 			i := c.Intn(cfg.N)
@@ -124,8 +140,8 @@ func drawConfig(prop, tier string, c *kernel.Chooser) Config {
 	// network
 	cfg.BaseLatency = []time.Duration{0, cfg.Delta / 20, cfg.Delta / 4, cfg.Delta / 2, cfg.Delta}[c.Intn(5)]
 	cfg.Jitter = []time.Duration{time.Millisecond, cfg.Delta / 10, cfg.Delta, 3 * cfg.Delta}[c.Intn(4)]
-	if cfg.Mode == ModeSafety && c.Chance(500) {
-		cfg.DropPm = []int{10, 50, 150, 400}[c.Intn(4)]
+	if cfg.Mode == ModeSafety && c.Chance(400) {
+		cfg.DropPm = []int{10, 50, 150, 300}[c.Intn(4)]
 	}
 	if c.Chance(400) {
 		cfg.DupPm = []int{20, 100, 300}[c.Intn(3)]
@@ -147,13 +163,46 @@ func drawConfig(prop, tier string, c *kernel.Chooser) Config {
 	}
 	cfg.CatchUp = c.Chance(500)
 	cfg.Restarts = c.Chance(250)
-	cfg.ByzStrategy = c.Intn(3)
+	cfg.ByzStrategy = c.Intn(5)
+	if cfg.Boundary && c.Chance(700) {
+		cfg.ByzStrategy = 3 + c.Intn(2)
+	}
+	// link policies
+	if cfg.Mode != ModeGoodCase && c.Chance(450) {
+		cfg.LinkPolicy = make([][]uint8, cfg.N)
+		for i := range cfg.LinkPolicy {
+			cfg.LinkPolicy[i] = make([]uint8, cfg.N)
+		}
+		kind := c.Intn(3)
+		pol := uint8(1 + c.Intn(2))
+		fav := c.Intn(cfg.N)
+		for i := 0; i < cfg.N; i++ {
+			for j := 0; j < cfg.N; j++ {
+				switch kind {
+				case 0: // camp partition
+					if cfg.Camp[i] != cfg.Camp[j] {
+						cfg.LinkPolicy[i][j] = pol
+					}
+				case 1: // favourite: everybody but one member is starved
+					if j != fav && i != j {
+						cfg.LinkPolicy[i][j] = pol
+					}
+				case 2: // random links
+					if i != j && c.Chance(300) {
+						cfg.LinkPolicy[i][j] = uint8(1 + c.Intn(2))
+					}
+				}
+			}
+		}
+		cfg.PolicyMask = []uint8{0x3e, 1 << 4, 1<<4 | 1<<5, 1 << 3, 1<<3 | 1<<4, 1 << 5, 1 << 1, 1 << 2}[c.Intn(8)]
+		cfg.PolicySlow = cfg.Delta * time.Duration(2+c.Intn(30))
+	}
 	cfg.ByzRate = []int{0, 100, 300, 700}[c.Intn(4)]
 	cfg.ByzTicks = c.Intn(30)
-	cfg.MaxSteps = 20000
-	cfg.MaxRounds = 12
+	cfg.MaxSteps = 6000
+	cfg.MaxRounds = 10
 	if thorough {
-		cfg.MaxSteps = 60000
+		cfg.MaxSteps = 30000
 		cfg.MaxRounds = 20
 	}
 	if cfg.Mode == ModeGoodCase {
@@ -178,6 +227,69 @@ func drawConfig(prop, tier string, c *kernel.Chooser) Config {
 		}
 	}
 	return cfg
+}
+
+// drawBoundary builds the boundary power profile: total unscaled power 65536, so that every
+// member's scaled power is its power minus one; the faulty coalition holds the largest scaled
+// power B with 3B < T and the honest members are split into two camps of (almost) equal power.
+func drawBoundary(cfg *Config, c *kernel.Chooser) {
+	n := cfg.N
+	nByz := 1 + c.Intn(max(1, n/3))
+	nA := 1 + c.Intn(max(1, (n-nByz)/2))
+	nB := n - nByz - nA
+	if nB < 1 {
+		return
+	}
+	T := int64(65536 - n)
+	B := (T+2)/3 - 1 // largest B with 3B < T
+	H := T - B
+	A := (H + 1) / 2
+	split := func(total int64, k int) []int64 {
+		// k positive scaled powers summing to total
+		out := make([]int64, k)
+		rest := total
+		for i := 0; i < k-1; i++ {
+			maxv := rest - int64(k-1-i)
+			v := int64(1)
+			if maxv > 1 {
+				v = 1 + int64(c.Intn(int(min(maxv-1, 1<<30))+1))
+			}
+			out[i] = v
+			rest -= v
+		}
+		out[k-1] = rest
+		return out
+	}
+	if B < int64(nByz) || A < int64(nA) || H-A < int64(nB) {
+		return
+	}
+	bs, as, bbs := split(B, nByz), split(A, nA), split(H-A, nB)
+	cfg.Boundary = true
+	cfg.Roles = make([]Role, n)
+	base := make([]int64, n)
+	i := 0
+	for _, v := range bs {
+		cfg.Roles[i] = Byzantine
+		base[i] = v + 1
+		i++
+	}
+	for _, v := range as {
+		cfg.Camp[i] = 0
+		base[i] = v + 1
+		i++
+	}
+	for _, v := range bbs {
+		cfg.Camp[i] = 1
+		base[i] = v + 1
+		i++
+	}
+	for k := range cfg.Powers {
+		cfg.Powers[k] = append([]int64(nil), base...)
+	}
+	cfg.CampInputs = c.Chance(800)
+	if cfg.CampInputs && cfg.Branches < 2 {
+		cfg.Branches = 2
+	}
 }
 
 // faultyWithinBudget checks 3*B < T and honest >= ceil(2T/3) in every table, with the
@@ -243,6 +355,10 @@ func newWorld(prop, tier string, c *kernel.Chooser, r *kernel.Recorder) *World {
 		}
 	}
 	w.byz = newByz(w)
+	gpbft.VerifSetDrainOrder(func(n int) []int {
+		w.r.Probe("drain_order_permuted")
+		return w.c.Perm(n)
+	})
 	if prop == "C05" || prop == "C13" {
 		w.vo = newValidatorOracle(w)
 	}
@@ -259,6 +375,8 @@ func (w *World) gpbftOptions() []gpbft.Option {
 		gpbft.WithRebroadcastBackoff(1.3, 0, cfg.RebcastBase, cfg.RebcastMax),
 		gpbft.WithRebroadcastImmediatelyAfterRound(cfg.RebcastImmediatelyAfter),
 		gpbft.WithCommitteeLookback(cfg.CommitteeLookback),
+		gpbft.WithMaxCachedInstances(cfg.CacheInstances),
+		gpbft.WithMaxCachedMessagesPerInstance(cfg.CacheMsgs),
 	}
 }
 
